@@ -61,6 +61,13 @@
 (* The class of a series is the one it has on the proper axis.  If the axis is a         *)
 (* constant (-T in every period) a time-dependent series is seen at rest, at a level      *)
 (* that is no rest point at k = 0.                                                       *)
+(*                                                                                    *)
+(* The solver's own tolerance.  ParameterErrorTolerance (`steptol`) is the accuracy to   *)
+(* which every period is solved: "none" (not set), "finer" or "coarser" than the         *)
+(* steady-state tolerance.  The acceptance test uses the steady-state tolerance whatever *)
+(* the step tolerance is.  Where the step tolerance is coarser a class with large drift   *)
+(* carries one more bit, `loose`: the last change is within the COARSER tolerance        *)
+(* (absolutely or relative to |last|) although it exceeds the steady-state one.          *)
 (* The operators JudgeBad / SteadyClass and the actions are the single source of truth *)
 (* for Steady_Trace.                                                                   *)
 EXTENDS Integers, Sequences, FiniteSets, TLC
@@ -68,10 +75,13 @@ EXTENDS Integers, Sequences, FiniteSets, TLC
 CONSTANTS
     Schemes,         \* the systems of the bounded instance: set of records
                      \*   [id, names : sequence of names (one per series), kinds : sequence of kinds,
-                     \*    tdep : sequence of time dependences,
+                     \*    tdep : sequence of time dependences, steptol : the solver's own tolerance option,
                      \*    grid : sequence, grid[i] = set of classes series i may end in,
                      \*    excls : set of sets of names the user may exclude]
     AllowMalformed,  \* BOOLEAN: also systems that are not well formed (Run may fail with any exception)
+    AsFound_AcceptanceUsesStepTolerance,
+                     \* TRUE: a seeded variant: the acceptance test compares with
+                     \*       max(steady-state tolerance, ParameterErrorTolerance).  FALSE: the code.
     AsFound_TimeAxisFrozen,
                      \* TRUE: a seeded variant: the axis -T..0 is built BEFORE the loop that freezes every exogenous
                      \*       series, which then overwrites it with the constant -T.  FALSE: the code.
@@ -102,17 +112,21 @@ IsLarge(m)  == m \in {"nL", "pL"}
 BandCase(c) == NearZero(c.prev) /\ NearZero(c.last) /\ c.drift = "large"
 ClassOK(c) ==
     /\ ~BandCase(c) => c.stays
+    /\ c.loose => c.drift = "large"
     /\ c.drift = "zero" => c.prev = c.last
     /\ (c.prev = "z" /\ c.last = "z") => c.drift = "zero"
     /\ c.drift = "rel_small" => (IsLarge(c.last) /\ c.prev = c.last)
-AllClasses == { c \in [prev : Mags, last : Mags, drift : Drifts, stays : BOOLEAN] : ClassOK(c) }
+AllClasses == { c \in [prev : Mags, last : Mags, drift : Drifts, stays : BOOLEAN, loose : {FALSE}] : ClassOK(c) }
+(* with a coarser step tolerance: every class with large drift also in its `loose` flavour *)
+LooseOf(S) == S \cup { [c EXCEPT !.loose = TRUE] : c \in { d \in S : d.drift = "large" } }
 
 ----------------------------------------------------------------------------
 (* The acceptance test, in the order of the code:                                     *)
 (*   if abs(lastval-prev) > tol:                                                      *)
 (*       if abs(lastval) < 1e-4:   bad iff not abs(prev) < 1e-4      (as found)        *)
 (*       else:                     bad iff abs(lastval-prev)/abs(lastval) > tol       *)
-AbsDiffExceedsTol(c) == c.drift \in {"rel_small", "large"}
+AbsDiffExceedsTol(c) == /\ c.drift \in {"rel_small", "large"}
+                        /\ ~(AsFound_AcceptanceUsesStepTolerance /\ c.loose)   \* within the coarser tolerance
 
 RelErrExceedsTol(c) ==
     IF AsFound_SignedRelativeTest
@@ -155,6 +169,7 @@ SkippedSet(nms, kds, opt) ==
 Outer0  == [eq |-> 1, exo |-> 1, hor |-> 1]
 NoCopy  == [eq |-> 0, exo |-> 0, hor |-> 0, axis |-> "none"]
 TDeps   == {"none", "settled", "trend"}
+StepTols == {"none", "finer", "coarser"}
 FrozenExo == 2      \* identity of "every exogenous series constant at its k=0 value"
 SearchHor == 2      \* identity of the search horizon T
 
@@ -164,6 +179,7 @@ VARIABLES
     names,      \* sequence (length n) of the names of the series
     kinds,      \* sequence (length n) of their kinds
     tdep,       \* sequence (length n) of their time dependences
+    steptol,    \* ParameterErrorTolerance relative to the steady-state tolerance
     option,     \* ParameterInitialSteadyStateExcludedVariables: a set of names
     excluded,   \* subset of 1..n: the series the acceptance loop skips
     sid,        \* id of the scheme the system was taken from (0: none)
@@ -176,13 +192,13 @@ VARIABLES
     outer,      \* snapshot of the solver that is being initialised
     inner       \* the same three identities of the copy the search works on
 
-sys  == << n, names, kinds, tdep, option, excluded, wf, sid >>      \* the system and the option: never change
+sys  == << n, names, kinds, tdep, steptol, option, excluded, wf, sid >>      \* the system and the option: never change
 vars == << phase, sys, runres, cls, judged, bad, exc, outer, inner >>
 
 Min(S) == CHOOSE x \in S : \A y \in S : x <= y
 
-Setup(nms, kds, tds, opt, w, id) ==
-    /\ phase = "idle" /\ n = Len(nms) /\ names = nms /\ kinds = kds /\ tdep = tds /\ option = opt /\ wf = w /\ sid = id
+Setup(nms, kds, tds, st, opt, w, id) ==
+    /\ phase = "idle" /\ n = Len(nms) /\ names = nms /\ kinds = kds /\ tdep = tds /\ steptol = st /\ option = opt /\ wf = w /\ sid = id
     /\ excluded = SkippedSet(nms, kds, opt)
     /\ runres = "none" /\ cls = << >> /\ judged = {} /\ bad = {} /\ exc = ""
     /\ outer = Outer0 /\ inner = NoCopy
@@ -191,7 +207,7 @@ MinId == Min({ s.id : s \in Schemes })
 Init == \E s \in Schemes, w \in (IF AllowMalformed THEN BOOLEAN ELSE {TRUE}) :
           \E ex \in s.excls :
             /\ (~w => (s.id = MinId /\ ex = {}))      \* one malformed system is enough
-            /\ Setup(s.names, s.kinds, s.tdep, OptionOf(ex), w, s.id)
+            /\ Setup(s.names, s.kinds, s.tdep, s.steptol, OptionOf(ex), w, s.id)
 
 Copy ==
     /\ phase = "idle"
@@ -304,10 +320,11 @@ C15_LeavesSolverUntouched == [][outer' = outer]_vars
 
 TypeOK ==
     /\ phase \in {"idle", "copied", "frozen", "ran", "judging", "installed", "rejected", "raised"}
-    /\ n = Len(names) /\ n = Len(kinds) /\ n = Len(tdep) /\ (\A i \in 1..n : tdep[i] \in TDeps) /\ \A i \in 1..n : kinds[i] \in Kinds
+    /\ n = Len(names) /\ n = Len(kinds) /\ n = Len(tdep) /\ steptol \in StepTols /\ (\A i \in 1..n : tdep[i] \in TDeps) /\ \A i \in 1..n : kinds[i] \in Kinds
     /\ excluded \subseteq 1..n
     /\ runres \in {"none", "ok", "conv", "valerr", "other"}
-    /\ (runres = "ok") => (Len(cls) = n /\ \A i \in 1..n : cls[i] \in AllClasses)
+    /\ (runres = "ok") => (Len(cls) = n /\ \A i \in 1..n : (cls[i] \in LooseOf(AllClasses)
+                                                           /\ (cls[i].loose => steptol = "coarser")))
     /\ judged \subseteq 1..n /\ bad \subseteq judged
     /\ exc \in {"", "NoEquilibriumError", "ValueError", "other"}
     /\ (phase \in {"idle"}) => inner = NoCopy
